@@ -77,6 +77,11 @@ CLAIMED["C05"] = (
     COMMON_TRUST + " The cryptographic primitives (crypto/rsa, crypto/dsa, crypto/ecdsa, hash.Hash) are external: their calls appear as sites whose arguments are proved and whose verdict is taken as the definition of 'cryptographically valid'; crypto.Hash.New is assumed non-nil (all six hashes are linked in by blank imports); after a successful asn1.Unmarshal into dsaSig both integers are assumed non-nil; keys are assumed well-formed objects (validKey: typed-nil key pointers are excluded by precondition). Bit-level mutation statements of the property follow from the primitives' behaviour, which is not modelled.",
 )
 
+CLAIMED["C15"] = (
+    "Deductive proof that the validators are total (every index and nil-dereference obligation of ValidateLogConfig, BuildLogBackendMap, validateConfigs, ValidateLogConfigs and ValidateLogMultiConfig is discharged for every message whose repeated elements are non-nil, including absent sections) and accept exactly the well-formed configurations: one postcondition per rule of the statement in both directions for a single log (log ID, key presence by log kind, parseable keys, not rejecting everything, only known EKU names, valid and ordered NotAfter window over abstract instants, non-negative ordered merge delays, frozen STH verified under the public key, usable connection string for the CTFE store), and by loop invariants over the maps for the sets (non-empty pairwise-distinct backend names and specs, non-empty pairwise-distinct prefixes, pairwise-distinct tree IDs, every log naming a defined backend; the converse 'a rejected set violates a rule' is proved for backends, prefixes and single-server tree IDs). Instance: Handlers() exposes add-chain and add-pre-chain exactly when the log is neither read-only nor a mirror and always the six read endpoints bound to this log with their methods; newLogInfo gives a frozen log the getter that returns only its frozen STH, a mirror the getter whose result is bounded by the backend tree size, and wires options unchanged; setUpLogInfo requires roots for non-mirrors, a private key consistent with a configured public key, and builds the chain-validation options from the validated configuration.",
+    COMMON_TRUST + " Key, DSN, timestamp and protobuf parsers are external (their verdicts appear as call-site results); MirrorSTHStorage.GetMirrorSTH is assumed to honour its documented bound; the per-backend tree-ID rule of ValidateLogMultiConfig is decided only up to the fmt.Sprintf key (string formatting is not modelled: names ending in '-' with negative IDs can collide); metric variables are assumed initialised by setupMetrics; text/binary protobuf decoding itself is not covered.",
+)
+
 NOT_YET = "contracts for this property are not yet discharged by the generator in this revision; no other technique is substituted"
 NOT_APPLICABLE = {}
 
